@@ -28,7 +28,7 @@ from vlib.values import HASHABLE_NAMES, NAMES
 PROPERTY_ID = "C05"
 LEVEL = "exploration"
 RULE = (
-    "One operator form (uniformly chosen among the 37 forms listed in FORMS: map/filter/take/skip/take_while/skip_while "
+    "One operator form (uniformly chosen among the 35 forms listed in FORMS: map/filter/take/skip/take_while/skip_while "
     "plain+indexed+inclusive, distinct, distinct_until_changed, pairwise, start_with, default_if_empty, ignore_elements, "
     "take_last, skip_last, take_last_buffer, element_at(+_or_default), find, find_index, starmap, pluck(+pluck_attr), "
     "materialize, dematerialize) with generated parameters (counts 0..len+3 biased to 0/len-1/len/len+1, hash-based or "
@@ -501,7 +501,7 @@ def checks(tier):
             "forms",
             _run,
             strategy=_cases(ml),
-            examples={"quick": 9000, "thorough": 16 * 4000 * 35},
-            shards={"quick": 6, "thorough": 16},
+            examples={"quick": 9000, "thorough": 16 * 75000},
+            shards={"quick": 8, "thorough": 16},
         ),
     ]
